@@ -20,7 +20,7 @@ inductive Stmt where
   | bf (path : Path) (cmp : Cmp) (callee : Nat) (arg : PyVal) (kw : PyVal) (catch_ : Bool)
   | sb (callee : Nat) (arg : PyVal) (kw : PyVal) (catch_ : Bool)
   | raise (tok : Nat)
-  | write (const : Option String)
+  | write (const : Option String) (mtime : Option Nat)
   | ite (c : Cond) (t e : List Stmt)
 deriving Inhabited
 
@@ -146,10 +146,10 @@ def goStmt (ver : String → Json) (fuel : Nat) (fs : Array Func) (tgt : Option 
       | _ => .query (.getSize p) (queryK acc k))
   | .q q => .query q (queryK acc k)
   | .raise tok => .raise (.user tok)
-  | .write c =>
+  | .write c mt =>
     -- the user's `open(target, 'w')` fails with ENAMETOOLONG for an over-long name
     if (match tgt with | some p => Path.tooLong p | none => false) then .raise (.os .other)
-    else .write (match c with | some s => s | none => digest (render (.arr acc))) (k acc)
+    else .write (match c with | some s => s | none => digest (render (.arr acc))) mt (k acc)
   | .ite c t e => if evalCond c acc then goStmts ver fuel fs tgt t acc k else goStmts ver fuel fs tgt e acc k
   | .bf path cmp callee arg kw catch_ =>
     match fuel, sanitize (.list false [arg]), sanitize kw with
